@@ -18,7 +18,9 @@
 //   Pairs exactly on a class / angle / cylinder / bench border (1e-9) make the direction "excluded" (counted, not judged).
 //   gg is judged for: variogram, madogram, rodogram, order-4 (pair values (dz_i*dz_j)/2, sqrt|.|/2, |.|^(1/4)/2, (.)^2/2),
 //   covariance centred by the global weighted means and non-centred covariance (oriented lags -npas..npas, isotopic data,
-//   accepted up to a global reversal of the orientation convention, centre slot not judged); for TRANS1/TRANS2/BINORMAL
+//   centre slot not judged; the orientation convention - which variable is the tail - is read once per run on a reference
+//   direction and imposed on every other direction w.r.t. its own codir; -codir must swap the two sides; lags holding a
+//   pair exactly orthogonal to codir are not judged on cross terms); for TRANS1/TRANS2/BINORMAL
 //   the direct terms (ivar==jvar, plain variogram) and sw/hh; for POISSON hh and the set of non-empty lags only.
 //   Not judged (no normative definition in the repository): generalised variograms, covariogram and flag_sample=true
 //   ("by sample" accumulation), transition/binormal cross terms, Poisson weights.
@@ -537,7 +539,7 @@ static std::vector<Dir> dirsSmall2D()
 }
 // omni-like (tolang 90) and wide (tolang 50) directions along +-x, +-y, +-diagonals (3-D: +-axes, +-(1,1,0); 1-D: +-1);
 // consecutive entries are mirror images of each other (codir / -codir), which the asymmetric estimators must swap.
-static void addCodirMenu(std::vector<Dir>& dirs, int ndim, int npas, double dpas, double toldis)
+static void addCodirMenu(std::vector<Dir>& dirs, int ndim, int npas, double dpas, double toldis, bool wide = true)
 {
   std::vector<std::vector<double>> cds;
   if (ndim == 1) cds = {{1}, {-1}};
@@ -545,7 +547,7 @@ static void addCodirMenu(std::vector<Dir>& dirs, int ndim, int npas, double dpas
   if (ndim == 3) cds = {{1, 0, 0}, {-1, 0, 0}, {0, 1, 0}, {0, -1, 0}, {0, 0, 1}, {0, 0, -1}, {1, 1, 0}, {-1, -1, 0}};
   for (double tol : {90., 50.})
   {
-    if (ndim == 1 && tol != 90.) continue;
+    if ((ndim == 1 || !wide) && tol != 90.) continue;
     int base = (int)dirs.size();
     for (size_t k = 0; k < cds.size(); k++)
     {
@@ -638,7 +640,7 @@ VF_PART(multivar)
   std::vector<P3> all = lat2(3);
   std::vector<Dir> dirs = dirsSmall2D();
   std::vector<Dir> dirsAsym = dirs;
-  addCodirMenu(dirsAsym, 2, 3, 1., 0.5);   // asymmetric estimators: omni-like / wide directions along +-x, +-y, +-diagonals
+  addCodirMenu(dirsAsym, 2, 3, 1., 0.5, C.thorough());   // asymmetric estimators: omni-like / wide directions along +-x, +-y, +-diagonals
   // menu of value patterns for 2 and 3 variables on up to 6 samples (undefined values in various places)
   static const double NA = TEST;
   static const double Z1[4][6] = {{1, 3, 0, 2, 5, 4}, {1, NA, 0, 2, 5, 4}, {NA, 3, 0, NA, 5, 4}, {0, 0, 1, 1, 3, 3}};
@@ -691,7 +693,7 @@ VF_PART(order_translation)
       if (keep) dirs.push_back(D);
     }
   }
-  addCodirMenu(dirs, 2, 3, 1., 0.5);
+  addCodirMenu(dirs, 2, 3, 1., 0.5, C.thorough());
   static const double tr[3][2] = {{0, 0}, {-8.5, 16.25}, {1024, -3.75}};
   Space sp;
   sp.axis("calc", 3).axis("translation", 3).axis("perm", 120).axis("subset", 512).axis("data", 2);
